@@ -255,12 +255,15 @@ fn register_worker() -> BeatGuard {
         beat: AtomicU64::new(0),
         phase: AtomicU64::new(u64::MAX),
         index: AtomicU64::new(0),
-        tid: my_tid(),
+        tid: if std::env::var("VERIF_SANITIZER").as_deref() == Ok("miri") { 0 } else { my_tid() },
         alive: std::sync::atomic::AtomicBool::new(true),
     });
-    MY_BEAT.with(|m| *m.borrow_mut() = Some(b.clone()));
-    BEATS.lock().unwrap().push(b.clone());
-    start_monitor();
+    // (not under the interpreter: no /proc there, and a step takes as long as it takes)
+    if std::env::var("VERIF_SANITIZER").as_deref() != Ok("miri") && b.tid != 0 {
+        MY_BEAT.with(|m| *m.borrow_mut() = Some(b.clone()));
+        BEATS.lock().unwrap().push(b.clone());
+        start_monitor();
+    }
     BeatGuard(b)
 }
 
